@@ -43,6 +43,21 @@ func (fc *FnCtx) execCall(fr *Frame, st *State, reach string, call ssa.CallInstr
 			callee = fv.Fn
 			binds = fv.Bind
 		} else {
+			if fv.Orig != "" {
+				if con := fc.eng.contracts["funcfield:"+fv.Orig]; con != nil {
+					fc.oblige(fr, "nil", "func value "+fc.exprAt(fr, call.Pos(), isCall), reach, tNot(tEq(fv.S, "0")), false, nil)
+					return fc.callByContractIface(fr, st, reach, con, fv, args, call)
+				}
+			}
+			if n, ok := com.Value.Type().(*types.Named); ok && n.Obj().Pkg() != nil {
+				if con := fc.eng.contracts["functype:"+n.Obj().Pkg().Path()+"."+n.Obj().Name()]; con != nil {
+					fc.oblige(fr, "nil", "func value "+fc.exprAt(fr, call.Pos(), isCall), reach, tNot(fc.valEq(fv, zeroVal(fv.T))), false, nil)
+					return fc.callByContractIface(fr, st, reach, con, fv, args, call)
+				}
+			}
+			if n, ok := types.Unalias(com.Value.Type()).(*types.Named); ok && n.Obj().Pkg() != nil && !strings.HasPrefix(n.Obj().Pkg().Path(), repoMod) {
+				return fc.unknownCall(fr, st, reach, "func value of external type "+n.Obj().Pkg().Path()+"."+n.Obj().Name(), resT, args, false)
+			}
 			return fc.unknownCall(fr, st, reach, "func value "+fc.exprAt(fr, call.Pos(), isCall), resT, args, true)
 		}
 	} else if mc, ok := com.Value.(*ssa.MakeClosure); ok {
